@@ -35,7 +35,9 @@ def gen_case(r, tier):
     elif kind == 'priority_range':
         W['anps'][r.randrange(n)]['priority'] = r.choice([-1, 1001, 5000, -100])
     elif kind == 'anp_name':
-        W['anps'].append(simple_anp(r, W['anps'][r.randrange(n)]['name'], r.choice([p for p in range(0, 1001) if p not in prios])))
+        o = W['anps'][r.randrange(n)]
+        # the second one has another priority, or (a copy edited in place) the very same one
+        W['anps'].append(simple_anp(r, o['name'], o['priority'] if r.random() < 0.4 else r.choice([p for p in range(0, 1001) if p not in prios])))
     elif kind == 'np_name':
         if not W['netpols']:
             W['netpols'].append({'ns': W['workloads'][0]['ns'], 'name': 'np0', 'podSelector': {}})
@@ -45,6 +47,8 @@ def gen_case(r, tier):
     elif kind == 'second_banp':
         W['banp'] = {'name': 'default', 'subject': {'namespaces': {}}, 'ingress': [{'name': 'b', 'action': 'Deny', 'from': [{'namespaces': {}}]}]}
         W['extra_banp'] = {'name': r.choice(['default', 'other']), 'subject': {'namespaces': {}}, 'egress': [{'name': 'b', 'action': 'Allow', 'to': [{'namespaces': {}}]}]}
+        if r.random() < 0.4:
+            W['extra_banp'] = copy.deepcopy(W['banp'])      # the same manifest twice (e.g. in two files) is still two BANPs
     elif kind == 'banp_name':
         W['banp'] = {'name': r.choice(['Default', 'baseline', 'default2']), 'subject': {'namespaces': {}},
                      'ingress': [{'name': 'b', 'action': 'Deny', 'from': [{'namespaces': {}}]}]}
